@@ -241,6 +241,60 @@ example : ∀ x : ℝ, 0 ≤ x → 0 ≤ Real.exp (-x) / (1 + x) ∧ Real.exp (-
   fun x hx => ⟨div_nonneg (Real.exp_pos _).le (by linarith), le_refl _⟩
 
 
+/-! ### the scaling mixin (`tempscalar+<profile>`, `enhance_class(<profile>, TempScaler)`) -/
+
+/-- `TempScaler` over any wrapped profile: one value per layer of the wrapped profile; for a scale factor `≥ 0` every value
+    lies in the range spanned by the wrapped profile's control temperatures times the scale factor. -/
+theorem scaler_between (s : ℝ) (prof : List ℝ) (lo hi : ℝ) (hs : 0 ≤ s) (hT : ∀ t ∈ prof, lo ≤ t ∧ t ≤ hi) :
+    (tempScaler s prof).length = prof.length ∧ ∀ t ∈ tempScaler s prof, lo * s ≤ t ∧ t ≤ hi * s := by
+  unfold tempScaler
+  refine ⟨List.length_map _, ?_⟩
+  intro t ht
+  obtain ⟨x, hx, rfl⟩ := List.mem_map.1 ht
+  exact ⟨mul_le_mul_of_nonneg_right (hT x hx).1 hs, mul_le_mul_of_nonneg_right (hT x hx).2 hs⟩
+
+example : tempScaler (11 / 10 : ℝ) [1000, 2000] = [1100, 2200] := by
+  simp [tempScaler]; norm_num
+
+/-- a positive scale factor keeps a positive profile positive; equal wrapped temperatures stay equal (a constant profile
+    scales to a constant profile) -/
+theorem scaler_positive_const (s : ℝ) (prof : List ℝ) (hs : 0 < s) :
+    ((∀ t ∈ prof, 0 < t) → ∀ t ∈ tempScaler s prof, 0 < t) ∧
+    (∀ c, (∀ t ∈ prof, t = c) → ∀ t ∈ tempScaler s prof, t = c * s) := by
+  unfold tempScaler
+  refine ⟨?_, ?_⟩
+  · intro h t ht
+    obtain ⟨x, hx, rfl⟩ := List.mem_map.1 ht
+    exact mul_pos (h x hx) hs
+  · intro c h t ht
+    obtain ⟨x, hx, rfl⟩ := List.mem_map.1 ht
+    rw [h x hx]
+
+example : (0 : ℝ) < 11 / 10 ∧ ∀ t ∈ [(1300 : ℝ), 1300], t = 1300 := by
+  refine ⟨by norm_num, ?_⟩
+  intro t ht; simp at ht; exact ht
+
+/-- **the scaled TemperatureArray / TemperatureFile, however often it is evaluated**: every one of `k` successive
+    evaluations of `.profile` has one value per layer inside the range of the tabulated temperatures times the scale factor
+    (the k-th evaluation is the first one: evaluating the profile leaves the stored controls alone). -/
+theorem scaler_array_reads (s : ℝ) (tp : List ℝ) (pp : Option (List ℝ)) (rev : Bool) (n : Nat) (pressure : List ℝ)
+    (lo hi : ℝ) (k : Nat) (hs : 0 ≤ s) (hne : 0 < tp.length) (hpp : ∀ pts, pp = some pts → 0 < pts.length)
+    (hn : n = pressure.length) (hT : ∀ t ∈ tp, lo ≤ t ∧ t ≤ hi) :
+    (tempScalerReads s tp pp rev n pressure k).length = k ∧
+    ∀ prof ∈ tempScalerReads s tp pp rev n pressure k,
+      prof = tempScaler s (tempArray tp pp rev n pressure) ∧ prof.length = n ∧
+        ∀ t ∈ prof, lo * s ≤ t ∧ t ≤ hi * s := by
+  have ha := array_between tp pp rev n pressure lo hi hne hpp hn hT
+  have hb := scaler_between s (tempArray tp pp rev n pressure) lo hi hs ha.2
+  unfold tempScalerReads
+  refine ⟨List.length_replicate, ?_⟩
+  intro prof hprof
+  obtain rfl := (List.mem_replicate.1 hprof).2
+  exact ⟨rfl, by rw [hb.1, ha.1], hb.2⟩
+
+example : tempScalerReads (11 / 10 : ℝ) [1000, 2000] none false 2 [100000, 10] 2 = [[1100, 2200], [1100, 2200]] := by
+  simp [tempScalerReads, tempScaler, tempArray, tempArrayPlain, List.replicate]; norm_num
+
 /-! ### the input-file route: `create_temperature_profile(section)` (taurex/parameter/factory.py)
 
 A profile built from a `[Temperature]` section is the class's constructor applied to the section's values over the
